@@ -238,7 +238,7 @@ def authalic (P : AL α) (phi : Ang α) : Ang α × α :=
       ⟨copysign qv phi.y, phin.x * RealLike.sqrt (Dqp * Dqm)⟩
     else phi
   let diff :=
-    if !(isNaN tphi) then
+    if !(isInf tphi) then       -- (a NaN propagates; the pole gets the limit — /repo 53d2592)
       let cbeta := (parametric P phi).1.normalized.x
       let cxi := xi.normalized.x
       ((2 : α) / P.q) * sq (cbeta / cxi) * (cbeta / cxi) * (cbeta / phin.x)
